@@ -9,7 +9,19 @@ from vf import tlc as tlcmod
 POINTS = [dict(a=np.array([0.5, 1.5]), b=np.array([0.25, 2.0])),
           dict(a=np.array([0.75, 0.125]), b=np.array([1.25, 0.5])),
           dict(a=np.array([-0.5, 1.0]), b=np.array([2.0, -1.5])),
-          dict(a=np.array([0.375, 0.875]), b=np.array([0.625, 0.3125]))]
+          dict(a=np.array([0.375, 0.875]), b=np.array([0.625, 0.3125])),
+          dict(a=np.array([34.5, -35.0]), b=np.array([36.0, 0.5]))]        # beyond the switch-over points of the numerically safe branches (softplus: 33)
+
+
+SAFE_AT_LARGE = {"softplus", "tanh", "sigmoid", "arctan", "abs", "sign", "unitstep", "clip"}
+
+
+def points_for(inst):
+    """the last point (|x| ~ 35) only for programs whose point-wise functions are all bounded or linear at large arguments: with exp / log
+    families the double-precision evaluation of the SPECIFICATION's expression cancels catastrophically there"""
+    fns = {s["f"] for s in inst["prog"] if s["op"] == "ptw"}
+    prods = sum(1 for s in inst["prog"] if s["op"] in ("mul", "vdot", "gauss"))
+    return POINTS if fns <= SAFE_AT_LARGE and prods <= 1 and not any(s["op"] == "vcg" for s in inst["prog"]) else POINTS[:-1]
 
 
 class Singular(Exception):
@@ -41,7 +53,7 @@ def ev(e, pt):
     u = ev(e["a"], pt)
     f = e["f"]
     p = [rat(x) for x in e["p"]]
-    if f in ("log", "log10", "sqrt") and u <= 0:
+    if f in ("log", "log10", "sqrt") and u <= 1e-9:       # (a "positive" 1e-17 is the rounding residue of an exact zero, e.g. sinc(1))
         raise Singular()
     if f == "log1p" and u <= -1:
         raise Singular()
@@ -67,6 +79,9 @@ def expected(inst, pt):
         val = np.array([ev(e, pt) for e in inst["val"]])
         jac = np.array([[ev(e, pt) for e in row] for row in inst["jac"]])
         inner = np.array([[ev(e, pt) for e in row] for row in inst["inner"]]) if inst["inner"] else None
+        if inst.get("mterms"):
+            # the metric of the energy as sum_n w_n g_n g_n^T: returned as the matrix whose rows are sqrt(w_n) g_n (so that inner^T inner is the metric)
+            inner = np.array([[np.sqrt(ev(t["w"], pt)) * ev(e, pt) for e in t["g"]] for t in inst["mterms"]])
     except (OverflowError, ZeroDivisionError, ValueError):
         raise Singular()
     if not (np.all(np.isfinite(val)) and np.all(np.isfinite(jac))) or np.max(np.abs(val)) > 1e12 or np.max(np.abs(jac)) > 1e12:
@@ -118,6 +133,15 @@ class Builder:
                 ops.append(x.vdot(y))
             elif o == "gauss":
                 ops.append(ift.GaussianEnergy(domain=self.dom) @ x)
+            elif o == "tag":
+                ops.append(x.ducktape_left("s"))
+            elif o == "untag":
+                ops.append(x.ducktape_left(self.dom) if False else ift.FieldAdapter(self.dom, "s") @ x)
+            elif o == "vcg" and prog[s["x"] - 1]["op"] == "var" and prog[s["y"] - 1]["op"] == "var" and prog[s["x"] - 1]["f"] != prog[s["y"] - 1]["f"]:
+                # directly on the two keys: fixing one of them reaches the energy's own specialisations
+                ops.append(ift.VariableCovarianceGaussianEnergy(self.dom, prog[s["x"] - 1]["f"], prog[s["y"] - 1]["f"], np.float64))
+            elif o == "vcg":
+                ops.append(ift.VariableCovarianceGaussianEnergy(self.dom, "r", "v", np.float64) @ (x.ducktape_left("r") + y.ducktape_left("v")))
             else:
                 raise tlcmod.MachineryError("unknown op " + o)
         return ops[-1]
@@ -132,6 +156,10 @@ class Builder:
     def dense_jac(self, op, lin):
         """Jacobian as a (n_out, 4) matrix (zero columns for keys the operator does not depend on) and its adjoint as (4, n_out)"""
         ift = self.ift
+        if isinstance(lin.target, ift.MultiDomain):
+            # a multi-field valued operator with the single key "s": look at it through the extraction of that key
+            ex = ift.FieldAdapter(self.dom, "s")
+            lin = ex(lin)
         nout = lin.val.size if hasattr(lin.val, "size") else 1
         J = np.zeros((nout, 4))
         JT = np.zeros((4, nout))
@@ -178,7 +206,7 @@ def close(a, b, rtol=1e-9):
 def emit_programs(ctx, quick, label, fnset3="all", preload=False):
     """programs of the three checks: all 2-slot programs with every point-wise function, all 3-slot programs of a smaller function set,
     and simulated 4-slot programs (thorough: more)"""
-    cfg = 'CONSTANTS MaxSlots = %d\nFnSet = "%s"\nPreload = FALSE\nSPECIFICATION Spec\n%sINVARIANT Emit\nCHECK_DEADLOCK FALSE\n'
+    cfg = 'CONSTANTS MaxSlots = %d\nFnSet = "%s"\nPreload = "none"\nSPECIFICATION Spec\n%sINVARIANT Emit\nCHECK_DEADLOCK FALSE\n'
     laws = "INVARIANT DualLaw\nINVARIANT SimplifyLaw\n"
     progs = []
     r = ctx.tlc("Calculus", cfg % (3, "rat", laws), label="rational sub-language, 3 slots: D = dual numbers", timeout=2500)
@@ -187,18 +215,31 @@ def emit_programs(ctx, quick, label, fnset3="all", preload=False):
     progs += r.emitted
     r = ctx.tlc("Calculus", cfg % (3, "few", ""), label="all 3-slot programs, four point-wise functions", workers=1, timeout=2500)
     progs += r.emitted
-    r = ctx.tlc("Calculus", cfg % (4 if quick else 5, "all", ""), label="simulated deeper programs", workers=1, simulate=(300 if quick else 5000), depth=6, seed=ctx.seed + 3, timeout=2500)
+    r = ctx.tlc("Calculus", cfg % (4 if quick else 5, "all", ""), label="simulated deeper programs", workers=1, simulate=(40 if quick else 200), depth=6, seed=ctx.seed + 3, timeout=2500)
     progs += r.emitted
-    if preload:
-        pcfg = cfg.replace("Preload = FALSE", "Preload = TRUE")
+    if preload in (True, "all"):
+        pcfg = cfg.replace('Preload = "none"', 'Preload = "ab"')
         r = ctx.tlc("Calculus", pcfg % (4, "few", ""), label="all programs with two further slots over both keys", workers=1, timeout=2500)
         progs += r.emitted
         r = ctx.tlc("Calculus", pcfg % (3, "all", ""), label="all programs with one further slot over both keys", workers=1, timeout=2500)
         progs += r.emitted
-        r = ctx.tlc("Calculus", pcfg % (5 if quick else 6, "all", ""), label="simulated deeper programs over both keys", workers=1, simulate=(300 if quick else 4000), depth=6, seed=ctx.seed + 4, timeout=2500)
+        r = ctx.tlc("Calculus", pcfg % (5 if quick else 6, "all", ""), label="simulated deeper programs over both keys", workers=1, simulate=(40 if quick else 150), depth=6, seed=ctx.seed + 4, timeout=2500)
+        progs += r.emitted
+    if preload in ("tagged", "all"):
+        tcfg = cfg.replace('Preload = "none"', 'Preload = "tagged"')
+        r = ctx.tlc("Calculus", tcfg % (6, "rat", ""), label="all programs with two further slots over a, b and their key-tagged versions", workers=1, timeout=2500)
+        progs += r.emitted
+    if label == "C05":
+        for script, n in (("multiround", 9), ("twoparents", 7)):
+            r = ctx.tlc("Calculus", (cfg % (n, "share", "")).replace('Preload = "none"', 'Preload = "%s"' % script), label="scripted program: " + script, workers=1, timeout=2500)
+            progs += r.emitted
+    if preload == "share" or label == "C05":
+        r = ctx.tlc("Calculus", cfg % (6, "share", ""), label="simulated 6-slot programs with heavy sharing", workers=1, simulate=12, depth=7, seed=1005, timeout=2500)
+        progs += r.emitted
+        r = ctx.tlc("Calculus", cfg % (7, "share", ""), label="simulated 7-slot programs with heavy sharing", workers=1, simulate=2, depth=8, seed=1006, timeout=2500)
         progs += r.emitted
     for inv in ("NeverShared", "NeverBothKeys"):
-        w = ctx.tlc("Calculus", 'CONSTANTS MaxSlots = 3\nFnSet = "rat"\nPreload = FALSE\nSPECIFICATION Spec\nINVARIANT %s\nCHECK_DEADLOCK FALSE\n' % inv, label="witness " + inv, expect_ok=False)
+        w = ctx.tlc("Calculus", 'CONSTANTS MaxSlots = 3\nFnSet = "rat"\nPreload = "none"\nSPECIFICATION Spec\nINVARIANT %s\nCHECK_DEADLOCK FALSE\n' % inv, label="witness " + inv, expect_ok=False)
         if w.violated != inv:
             raise tlcmod.MachineryError("vacuity witness %s not refuted" % inv)
     seen, uniq = set(), []
